@@ -217,7 +217,8 @@ def run(chk):
             elif "Bad" in tree and r["exit"] in ("ok", "error"):
                 sha = sha if r["exit"] == "ok" else "refused:unreadable-input"      # whichever it is, it is the same under every arrival order
             elif r["exit"] != "ok":
-                raise ToolError(f"typeshare failed on a C06 tree {tree} ({lang}, {mode}): {r['stderr'][-300:]}")
+                sha = "failed:" + r["exit"]        # a supported tree: the failure is an outcome like any other, and must not vary either
+                chk.refused(f"{mode}/tree", f"{lang} {mode}: typeshare failed on tree {tree}: {r['stderr'][-200:].strip()}", {"tree": tree, "mode": mode, "lang": lang, "dim": "arrival-order", "perm": c["perm"]})
             col.add(f"tree{idx}", sha, {"mode": mode, "dim": "arrival-order", "features": features(tree), "lang": lang,
                                         "detail": f"tree {tree} arrival {c['perm']}", "tree": tree, "perm": c["perm"]})
             if has_tie(tree):      # with the tied files arriving in the same relative order nothing else may move either
@@ -262,7 +263,8 @@ def run(chk):
                 for rep in range(2 if not thorough else 4):
                     r, sha, _ = run_once(d, lang, mode, {"TYPESHARE_VERIF_THREADS": str(th)}, f"th{th}_{rep}")
                     if r["exit"] != "ok":
-                        raise ToolError(f"typeshare failed: {r['stderr'][-300:]}")
+                        chk.refused(f"{mode}/threads", f"{lang} {mode}: typeshare failed with {th} threads: {r['stderr'][-200:].strip()}", {"dim": "thread-count"})
+                        continue
                     col.add(f"threads{k}{mode}", sha, {"mode": mode, "dim": "thread-count", "features": features(big), "lang": lang,
                                                        "detail": f"tree {big} threads {th} rep {rep}"})
     # hash-order site: a reference imported from a crate that is not typeshared, defined in two other crates
@@ -275,7 +277,8 @@ def run(chk):
         for rep in range(40 if thorough else 12):
             r, sha, _ = run_once(d, lang, "multi", {}, f"s{rep}")
             if r["exit"] != "ok":
-                raise ToolError(f"typeshare failed: {r['stderr'][-300:]}")
+                chk.refused("multi/fresh-process", f"{lang}: typeshare failed: {r['stderr'][-200:].strip()}", {"dim": "fresh-process"})
+                continue
             col.add(f"hash{k}", sha, {"mode": "multi", "dim": "fresh-process", "features": "import-fallback-same-name-in-several-crates",
                                       "lang": lang, "detail": f"process {rep}"})
     # hash-order side, systematically: MC_C06_ws workspaces with an ambiguous name, each in several fresh processes
@@ -324,7 +327,8 @@ def run(chk):
             roots = [r for r in ("r2", "r0", "r1") if any(f.startswith(r + "/") for f in files)] if sname == "three-roots" else None
             r, sha, _ = run_once(d, lang, "single", {"TYPESHARE_VERIF_THREADS": "1"}, "s", roots)
             if r["exit"] != "ok":
-                raise ToolError(f"typeshare failed: {r['stderr'][-300:]}")
+                chk.refused(f"single/split-{sname}", f"{lang}: typeshare failed on split {sname}: {r['stderr'][-200:].strip()}", {"dim": "file-split"})
+                continue
             col.add(f"split{k}", sha, {"mode": "single", "dim": "file-split", "features": features(tree), "lang": lang,
                                        "detail": f"items of tree {list(tree)} split {sname}"})
     # overlapping directory arguments: a root given twice, and a root together with one of its own sub-directories. What typeshare
